@@ -239,11 +239,12 @@ type writerInfo struct {
 }
 
 type parserInfo struct {
-	typ     string
-	minLen  int
-	tokens  map[string]bool
-	pos     token.Pos
-	hasLoop bool
+	typ      string
+	delegate string // another parser of the package this one hands the command to
+	minLen   int
+	tokens   map[string]bool
+	pos      token.Pos
+	hasLoop  bool
 }
 
 func codecAgreement(r *core.Run) {
@@ -266,35 +267,59 @@ func codecAgreement(r *core.Run) {
 				continue
 			}
 			w := &writerInfo{typ: n.Obj().Name(), tokens: map[string]bool{}, pos: fn.Decl.Pos()}
+			// the elements a statement adds to the argument list: append(args, a, b) or the
+			// elements of the slice literal the list starts from
+			emit := func(rhs ast.Expr, cond, loop bool) {
+				var elems []ast.Expr
+				switch e := rhs.(type) {
+				case *ast.CallExpr:
+					if id, ok := e.Fun.(*ast.Ident); !ok || id.Name != "append" || len(e.Args) < 2 {
+						return
+					}
+					elems = e.Args[1:]
+				case *ast.CompositeLit:
+					if _, isArr := e.Type.(*ast.ArrayType); !isArr {
+						return
+					}
+					elems = e.Elts
+				default:
+					return
+				}
+				for _, a := range elems {
+					if loop {
+						w.variadic = true
+						continue
+					}
+					if s, ok := core.ConstString(pkg, a); ok && cond {
+						w.tokens[strings.ToUpper(s)] = true
+						continue
+					}
+					if !cond {
+						if w.mandatory == 0 {
+							w.cmdRef = commandRef(fn, a)
+						}
+						w.mandatory++
+					}
+				}
+			}
 			var walk func(stmts []ast.Stmt, cond, loop bool)
 			walk = func(stmts []ast.Stmt, cond, loop bool) {
 				for _, s := range stmts {
 					switch x := s.(type) {
+					case *ast.DeclStmt:
+						// var args = []interface{}{...}
+						if gd, ok := x.Decl.(*ast.GenDecl); ok {
+							for _, sp := range gd.Specs {
+								if vs, ok := sp.(*ast.ValueSpec); ok {
+									for _, v := range vs.Values {
+										emit(v, cond, loop)
+									}
+								}
+							}
+						}
 					case *ast.AssignStmt:
 						for _, rhs := range x.Rhs {
-							call, ok := rhs.(*ast.CallExpr)
-							if !ok {
-								continue
-							}
-							if id, ok := call.Fun.(*ast.Ident); !ok || id.Name != "append" || len(call.Args) < 2 {
-								continue
-							}
-							for _, a := range call.Args[1:] {
-								if loop {
-									w.variadic = true
-									continue
-								}
-								if s, ok := core.ConstString(pkg, a); ok && cond {
-									w.tokens[strings.ToUpper(s)] = true
-									continue
-								}
-								if !cond {
-									if w.mandatory == 0 {
-										w.cmdRef = commandRef(fn, a)
-									}
-									w.mandatory++
-								}
-							}
+							emit(rhs, cond, loop)
 						}
 					case *ast.IfStmt:
 						walk(x.Body.List, true, loop)
@@ -369,11 +394,28 @@ func codecAgreement(r *core.Run) {
 					}
 				case *ast.ForStmt, *ast.RangeStmt:
 					pi.hasLoop = true
+				case *ast.CallExpr:
+					if o := core.Callee(pkg, x); o != nil && o.Pkg() == fn.Obj.Pkg() && o != fn.Obj &&
+						strings.HasPrefix(o.Name(), "Parse") && strings.HasSuffix(o.Name(), "Command") {
+						pi.delegate = strings.TrimSuffix(strings.TrimPrefix(o.Name(), "Parse"), "Command")
+					}
 				}
 				return true
 			})
-			// delegating parsers (ParseDelEntryCommand -> ParseDelCommand) inherit
 			parsers[typ] = pi
+		}
+	}
+	// a parser that hands the command to another parser (ParseDecrCommand -> ParseIncrCommand)
+	// inherits what it does not decide itself
+	for _, pi := range parsers {
+		if d := parsers[pi.delegate]; d != nil && d != pi {
+			if pi.minLen < 0 {
+				pi.minLen = d.minLen
+			}
+			for t := range d.tokens {
+				pi.tokens[t] = true
+			}
+			pi.hasLoop = pi.hasLoop || d.hasLoop
 		}
 	}
 	for _, w := range writers {
@@ -395,11 +437,27 @@ func codecAgreement(r *core.Run) {
 			continue
 		}
 		m := map[string]bool{}
-		core.WalkCalls(h.Handler.Decl.Body, func(call *ast.CallExpr, _ *ast.FuncLit) {
-			if o := core.Callee(h.Handler.Pkg, call); o != nil && o.Pkg() != nil && core.RelPkg(o.Pkg().Path()) == "internal/protocol" && strings.HasPrefix(o.Name(), "Parse") {
-				m[strings.TrimSuffix(strings.TrimPrefix(o.Name(), "Parse"), "Command")] = true
+		var walk func(fn *core.Fn, depth int)
+		walk = func(fn *core.Fn, depth int) {
+			if fn == nil || fn.Decl == nil || fn.Decl.Body == nil {
+				return
 			}
-		})
+			core.WalkCalls(fn.Decl.Body, func(call *ast.CallExpr, _ *ast.FuncLit) {
+				o := core.Callee(fn.Pkg, call)
+				if o == nil || o.Pkg() == nil {
+					return
+				}
+				if core.RelPkg(o.Pkg().Path()) == "internal/protocol" && strings.HasPrefix(o.Name(), "Parse") {
+					m[strings.TrimSuffix(strings.TrimPrefix(o.Name(), "Parse"), "Command")] = true
+					return
+				}
+				// a same-package helper that takes the command and parses it (one level)
+				if depth == 0 && o.Pkg().Path() == fn.Pkg.PkgPath {
+					walk(p.ByObj[o], 1)
+				}
+			})
+		}
+		walk(h.Handler, 0)
 		parserOfCmd[h.Ref] = m
 	}
 	// writers that are used by non-test code (others are dead code: go-redis' own builders send those commands)
